@@ -214,6 +214,40 @@ def install(servicer, sched, datastore_lock=True):
   return False
 
 
+class YieldingConnection:
+  """The SQL datastore's connection with a yield point before every statement,
+  commit and rollback: a thread may be pre-empted between a write statement and
+  its COMMIT. On code that keeps its datastore lock over the whole transaction
+  only lock-free code can run there (everybody else blocks on the lock)."""
+
+  def __init__(self, conn, sched):
+    object.__setattr__(self, '_conn', conn)
+    object.__setattr__(self, '_sched', sched)
+
+  def __getattr__(self, name):
+    return getattr(self._conn, name)
+
+  def execute(self, *a, **k):
+    self._sched.yield_point('sql')
+    return self._conn.execute(*a, **k)
+
+  def commit(self):
+    self._sched.yield_point('commit')
+    return self._conn.commit()
+
+  def rollback(self):
+    self._sched.yield_point('rollback')
+    return self._conn.rollback()
+
+
+def install_statement_yields(servicer, sched):
+  inner = getattr(servicer.datastore, '_inner', servicer.datastore)
+  if hasattr(inner, '_connection'):
+    inner._connection = YieldingConnection(inner._connection, sched)  # pylint: disable=protected-access
+    return True
+  return False
+
+
 def children(trace, prefix_len, max_preemptions):
   """Schedules that differ from `trace` first at some step >= prefix_len.
 
